@@ -37,11 +37,31 @@ def errcode(e):
 
 
 # ------------------------------------------------------------------------------------------------
+def fix_tree(t):
+    """replay files store Fractions as strings: restore them"""
+    if not isinstance(t, list):
+        return t
+    if t and t[0] == 0 and len(t) == 3:
+        return [0, t[1], Fraction(t[2])]
+    if t and t[0] == 2 and len(t) == 4:
+        return [2, t[1], Fraction(t[2]), t[3]]
+    return [fix_tree(x) for x in t]
+
+
+def fix_case(case):
+    for spec in case['pool']:
+        spec['rhs'] = fix_tree(spec['rhs'])
+        if spec['lhs'][0] == 'o':
+            spec['lhs'] = ['o', fix_tree(spec['lhs'][1])]
+    return case
+
+
 class Impl(object):
     """Runs a case on cellmlmanip.model.Model."""
 
     def __init__(self, case):
         import cellmlmanip.model as M
+        fix_case(case)
         self.M = M
         self.case = case
         self.model = M.Model('m', cmeta_id=case.get('mcmeta'))
@@ -201,7 +221,7 @@ class Impl(object):
             self.objs.append(v)
             self.live.append(True)
             return ['ok', len(self.objs) - 1]
-        if k in ('rmvar', 'addcmeta', 'q_def', 'q_const', 'q_cmeta', 'q_annot'):
+        if k in ('rmvar', 'addcmeta', 'q_def', 'q_const', 'q_cmeta', 'q_annot', 'q_value'):
             if not (0 <= op[1] < len(self.objs)) or not self.live[op[1]]:
                 return ['err', 9]
         if k == 'transfer':
@@ -272,6 +292,8 @@ class Impl(object):
             return ['ok', bool(m.has_cmeta_id(op[1]))]
         if k == 'q_cmeta':
             return ['ok', self.objs[op[1]].cmeta_id]
+        if k == 'q_value':
+            return ['ok', float(m.get_value(self.objs[op[1]]))]
         if k == 'q_annot':
             v = self.objs[op[1]]
             out = []
@@ -360,6 +382,8 @@ def encode_op(op):
         return [24, op[1]]
     if k == 'q_annot':
         return [25, op[1]]
+    if k == 'q_value':
+        return [30, op[1]]
     raise RuntimeError(op)
 
 
@@ -397,12 +421,18 @@ def decode_result(op, m):
         return ['ok', vlib.sexp_str(r[0]) if r else None]
     if k == 'q_annot':
         return ['ok', sorted([p, o] for p, o in r)]
+    if k == 'q_value':
+        return ['ok', r[0] / r[1]]
     return ['ok']
 
 
-def same(a, b):
+def same(a, b, op=None):
     if a[0] != b[0]:
         return False
+    if op is not None and op[0] == 'q_value':
+        if a[0] == 'err':
+            return True        # which exception get_value raises first depends on set iteration order
+        return math.isclose(a[1], b[1], rel_tol=1e-9, abs_tol=1e-12)
     if a[0] == 'err':
         return a[1] == b[1]
     return a[1:2] == b[1:2]
@@ -430,6 +460,8 @@ PROFILES = {
              ('q_hascmeta', 1), ('q_cmeta', 1), ('q_annot', 1)],
     'annot': [('addeq', 4), ('rmeq', 2), ('rmvar', 12), ('addvar', 14), ('addcmeta', 14), ('transfer', 12), ('triple', 12),
               ('query', 2), ('q_bycmeta', 8), ('q_byrdf', 8), ('q_hascmeta', 4), ('q_cmeta', 4), ('q_annot', 4)],
+    'value': [('addeq', 14), ('rmeq', 4), ('rmvar', 2), ('addvar', 2), ('query', 20), ('q_def', 6), ('q_const', 14),
+              ('q_value', 34), ('q_eqsfor', 4)],
     'query': [('addeq', 14), ('rmeq', 3), ('rmvar', 1), ('addvar', 1), ('query', 20), ('q_def', 8), ('q_const', 10),
               ('q_eqsfor', 43)],
 }
@@ -439,7 +471,7 @@ def q(idc, val):
     return [2, idc, Fraction(val), 0]
 
 
-def gen_rhs(rng, allowed, tvar, qcount, states=()):
+def gen_rhs(rng, allowed, tvar, qcount, states=(), rational=False):
     """random right-hand side over the allowed base variables; derivative atoms only of `states`; returns tree"""
     allow_deriv = bool(states)
 
@@ -464,7 +496,7 @@ def gen_rhs(rng, allowed, tvar, qcount, states=()):
             return [5, go(d + 1), go(d + 1)]
         if r < 0.88:
             return [6, go(d + 1), [0, 0, Fraction(2)]]
-        if r < 0.94:
+        if r < 0.94 and not rational:
             return [7, 0, go(d + 1)]
         # a term that vanishes once numbers are substituted: zero-quantity times a variable
         qcount[0] += 1
@@ -474,7 +506,7 @@ def gen_rhs(rng, allowed, tvar, qcount, states=()):
 
 def gen_case(seed, profile='edit'):
     rng = random.Random(seed)
-    nbase = rng.randint(7, 12) if profile == 'query' else rng.randint(4, 7)
+    nbase = rng.randint(7, 12) if profile == 'query' else rng.randint(4, 8 if profile == 'value' else 7)
     names = BASE_NAMES[:nbase]
     tvar = names.index('time') if 'time' in names else nbase - 1
     base = []
@@ -488,6 +520,8 @@ def gen_case(seed, profile='edit'):
             else:
                 used_c.add(c)
         init = rng.choice([None, '1', '0', '2.5', '-3']) if rng.random() < 0.7 else None
+        if profile == 'value' and rng.random() < 0.9:
+            init = rng.choice(['1', '0', '2.5', '-3', '0.5'])
         base.append([n, c, init])
     mcmeta = 'mid' if rng.random() < 0.3 else None
     qcount = [0]
@@ -506,7 +540,8 @@ def gen_case(seed, profile='edit'):
             qcount[0] += 1
             rhs = q(qcount[0], rng.choice(['1', '2', '0.25']))
         else:
-            rhs = gen_rhs(rng, allowed or [tvar], tvar, qcount, states=[i for i in kinds if kinds[i] == 'ode'])
+            rhs = gen_rhs(rng, allowed or [tvar], tvar, qcount, states=[i for i in kinds if kinds[i] == 'ode'],
+                          rational=(profile == 'value'))
         pool.append({'lhs': ['d', y, tvar, 1] if kinds[y] == 'ode' else ['v', y], 'rhs': rhs})
     ncore = len(pool)
     # alternatives and malformed entries
@@ -523,12 +558,13 @@ def gen_case(seed, profile='edit'):
             lhs = ['d2', y, tvar, (tvar + 1) % nbase]
         else:
             lhs = ['o', [4, [3, y], [3, (y + 1) % nbase]]]
-        pool.append({'lhs': lhs, 'rhs': gen_rhs(rng, list(range(nbase)), tvar, qcount, states=list(range(nbase)))})
+        pool.append({'lhs': lhs, 'rhs': gen_rhs(rng, list(range(nbase)), tvar, qcount, states=list(range(nbase)),
+                                                rational=(profile == 'value'))})
     npool = len(pool)
     ops = []
     nvars = nbase
     for e in range(ncore):
-        if rng.random() < (0.97 if profile == 'query' else 0.85):
+        if rng.random() < (0.97 if profile in ('query', 'value') else 0.85):
             ops.append(['addeq', e, True])
     nops = rng.randint(8, 25)
     queries = ['q_eqs', 'q_states', 'q_graph', 'q_ngraph', 'q_vars', 'q_free', 'q_derivs', 'q_derived']
@@ -537,7 +573,7 @@ def gen_case(seed, profile='edit'):
     for _ in range(nops):
         k = rng.choice(kinds)
         if k == 'addeq':
-            ops.append(['addeq', rng.randrange(npool), rng.random() < 0.9])
+            ops.append(['addeq', rng.randrange(npool), (rng.random() < 0.9) if profile == 'edit' else True])
         elif k == 'rmeq':
             ops.append(['rmeq', rng.randrange(npool)])
         elif k == 'rmvar':
@@ -575,13 +611,15 @@ def gen_case(seed, profile='edit'):
             ops.append(['q_cmeta', rng.randrange(nvars)])
         elif k == 'q_annot':
             ops.append(['q_annot', rng.randrange(nvars)])
+        elif k == 'q_value':
+            ops.append(['q_value', rng.randrange(nvars)])
     # always end with the full set of queries
     for qn in queries:
         ops.append([qn])
     return {'seed': seed, 'mcmeta': mcmeta, 'base': base, 'pool': pool, 'ops': ops}
 
 
-def correspond(ctx, cases, plains, label):
+def correspond(ctx, cases, plains, label, fn=FN, with_rhs=False):
     """model vs implementation, operation by operation"""
     idx = [i for i, p in enumerate(plains) if 'eqrecs' in p]
     for i, p in enumerate(plains):
@@ -589,14 +627,20 @@ def correspond(ctx, cases, plains, label):
             ctx.tie_break('harness error while running the implementation: ' + p['harness_error'], cases[i])
     if not ctx.model_ok() or not idx:
         return
-    outs = vlib.model_run(FN, [encode_case(cases[i], plains[i]['eqrecs']) for i in idx])
+    enc = []
+    for i in idx:
+        e = encode_case(cases[i], plains[i]['eqrecs'])
+        if with_rhs:
+            e = [e[0], e[1], [spec['rhs'] for spec in cases[i]['pool']], e[2]]
+        enc.append(e)
+    outs = vlib.model_run(fn, enc)
     for i, out in zip(idx, outs):
         case = cases[i]
         nb = len(case['base'])
         ctx.corr_cases += 1
         for j, (op, r) in enumerate(zip(case['ops'], plains[i]['results'])):
             m = decode_result(op, out[nb + j])
-            if not same(r, m):
+            if not same(r, m, op):
                 ctx.tie_break('correspondence %s (Model/ModelSM.v vs model.py) differs at operation %d %r: implementation %r, model %r'
                               % (label, j, op, r[:3], m[:3]), {'case': case, 'op_index': j})
                 break
